@@ -71,7 +71,20 @@ def record(mol, grid, window, pka_text, max_groups=None):
     piq = [r4(q(pif - prec)[1]), r4(q(pif + prec)[1]), r4(q(piu - prec)[0]), r4(q(piu + prec)[0]),
            r4(q(piw[0])[1]), r4(q(piw[1])[1]), r4(q(piw[0])[0]), r4(q(piw[1])[0])]
     f = pkaparse.parse(pka_text) if pka_text else None
+    # the report written for each single conformation states that conformation's own pI
+    confpi = []
+    if len(mol.conformation_names) > 1:
+        import propka.output as pout
+        for cn in mol.conformation_names:
+            sect = pout.get_charge_profile_section(mol, conformation=cn)
+            import re as _re
+            m_ = _re.search(r"The pI is\s*(-?\d+\.\d\d) \(folded\) and\s*(-?\d+\.\d\d) \(unfolded\)", sect)
+            fp = [pkaparse.cents(m_.group(1)), pkaparse.cents(m_.group(2))] if m_ else None
+            af, au = mol.get_pi(conformation=cn)
+            if fp:
+                confpi.append([fp[0], fp[1], micro(af), micro(au)])
     rec = {
+        "confpi": confpi,
         "g": [milli_str(x) for x in grid], "w": [milli_str(x) for x in window],
         "ph": [micro(p) for p in phs], "dg": [r4(d) for _, d in prof],
         "chph": [micro(r[0]) for r in ch], "ch": [[r4(r[1]), r4(r[2])] for r in ch],
